@@ -44,9 +44,21 @@ def reexec_if_needed():
 
 
 def work_root():
+    import tempfile
+
     base = "/dev/shm" if os.path.isdir("/dev/shm") and os.access("/dev/shm", os.W_OK) else "/tmp"
-    d = os.path.join(base, f"bldfm-verif-{os.getpid()}")
-    os.makedirs(d, exist_ok=True)
+    # sweep what a killed earlier check left behind (its pid is dead)
+    for name in os.listdir(base):
+        if not name.startswith("bldfm-verif-"):
+            continue
+        try:
+            pid = int(name.split("-")[2])
+            os.kill(pid, 0)
+        except (IndexError, ValueError, PermissionError):
+            continue
+        except ProcessLookupError:
+            shutil.rmtree(os.path.join(base, name), ignore_errors=True)
+    d = tempfile.mkdtemp(prefix=f"bldfm-verif-{os.getpid()}-", dir=base)
     master = os.getpid()
 
     def _clean(*_a):
@@ -144,7 +156,7 @@ def prepare_numba_states(log=print):
             age = now - os.stat(p).st_mtime
         except OSError:
             continue
-        if name != key and age > 6 * 3600:
+        if name != key and age > 3 * 3600:
             shutil.rmtree(p, ignore_errors=True)
     tmp = os.path.join(base, f".{key}.{os.getpid()}")
     shutil.rmtree(tmp, ignore_errors=True)
